@@ -99,7 +99,12 @@ func bitField(nd data.UnixFSData) (bitfield.Bitfield, error) {
 	if err != nil {
 		return nil, err
 	}
-	bf.SetBytes(nd.FieldData().Must().Bytes())
+	bits := nd.FieldData().Must().Bytes()
+	if len(bits) > len(bf) {
+		// SetBytes panics on a bitfield wider than the fanout
+		return nil, ErrInvalidBitfield
+	}
+	bf.SetBytes(bits)
 	return bf, nil
 }
 
